@@ -772,7 +772,8 @@ def generator_check(rep, p1):
     if len(gens) != 1:
         rep.add('generator-not-once', '%d meta:generator elements' % len(gens)); return
     txt = u''.join(k[1] for k in gens[0][4] if k[0] == 'T')
-    if txt != odf.namespaces.TOOLSVERSION:
+    # "names this library": the library's name is fixed by the property's reader (ODFPY), the version by the code
+    if txt != odf.namespaces.TOOLSVERSION or not txt.startswith(u'ODFPY/'):
         rep.add('generator-not-this-library', 'generator says %r' % txt)
 
 
